@@ -5,7 +5,6 @@ import (
 	"context"
 	"encoding/binary"
 	"fmt"
-	"os"
 	"runtime"
 	"sync"
 	"sync/atomic"
@@ -33,9 +32,9 @@ type trCfg struct {
 }
 
 type trCall struct {
-	seq  uint64
-	id   uint16
-	n    int
+	seq uint64
+	id  uint16
+	n   int
 }
 
 type trBatch struct {
@@ -241,12 +240,6 @@ func (b *trBatch) makeTransport() trExchanger {
 
 func runTransportBatch(cfg trCfg) {
 	caselog.Log(cfg)
-	t0 := time.Now()
-	defer func() {
-		if os.Getenv("C16_DEBUG") != "" {
-			fmt.Fprintf(os.Stderr, "transport batch %+v: %v\n", cfg, time.Since(t0))
-		}
-	}()
 	if cfg.Procs > 0 {
 		runtime.GOMAXPROCS(cfg.Procs)
 		defer runtime.GOMAXPROCS(16)
@@ -342,8 +335,8 @@ func runTransportBatch(cfg trCfg) {
 	if frames > 0 && b.okN.Load() > 0 {
 		rep.Nontrivial(fmt.Sprintf("tr|%s|c%d|p%d|q%d|k%d|g%d|%x", tname, cfg.Callers, cfg.PerCaller, cfg.QBig, cfg.Chunk, cfg.Procs, cfg.Seed))
 	}
-	if rep.WantSample() && cfg.Callers >= 32 {
-		rep.Sample(map[string]any{"transport_batch": cfg, "query_frames_verified": frames, "write_calls": writes, "replies_ok": b.okN.Load(), "errors": b.errN.Load(), "connections": len(advs)})
+	if cfg.Callers >= 64 {
+		sampleKind("transport", 1, map[string]any{"transport_batch": cfg, "query_frames_verified": frames, "write_calls": writes, "replies_ok": b.okN.Load(), "errors": b.errN.Load(), "connections": len(advs)})
 	}
 }
 
